@@ -793,8 +793,10 @@ class FakeNet:
     udp_bound = {}      # port -> [sockets]
     next_port = 40000
     fail_bind_ports = set()       # fault injection: bind() on these ports raises OSError
+    bind_fault_exc = None         # optional factory of the exception such a bind() raises (default: EADDRINUSE)
     fail_connect = set()          # ports refusing connections
     segment = None                # optional function(bytes)->list of chunks (segmentation chosen by the harness)
+    send_hook = None              # optional function(bytes)->exception or None: a transient OS-level failure of one sendall
     no_coalesce = False           # True: one recv() returns at most one sent chunk
 
     @classmethod
@@ -805,8 +807,10 @@ class FakeNet:
         cls.udp_bound = {}
         cls.next_port = 40000
         cls.fail_bind_ports = set()
+        cls.bind_fault_exc = None
         cls.fail_connect = set()
         cls.segment = None
+        cls.send_hook = None
         cls.no_coalesce = False
 
 
@@ -866,7 +870,7 @@ class FakeSocket:
     def bind(self, address):
         host, port = address
         if port in FakeNet.fail_bind_ports:
-            raise OSError(98, "Address already in use")
+            raise (FakeNet.bind_fault_exc() if FakeNet.bind_fault_exc else OSError(98, "Address already in use"))
         if self.type == 1:  # SOCK_STREAM
             if port == 0:
                 FakeNet.next_port += 1
@@ -924,6 +928,10 @@ class FakeSocket:
         if p._closed or p._eof_sent_to_me(self):
             raise BrokenPipeError(32, "Broken pipe")
         data = bytes(data)
+        if FakeNet.send_hook is not None:
+            exc = FakeNet.send_hook(data)
+            if exc is not None:
+                raise exc
         chunks = FakeNet.segment(data) if FakeNet.segment else [data]
         for c in chunks:
             if c:
